@@ -193,6 +193,15 @@ def forwarded_bits(rep, idx):
     aw = kwarg(mm, 'addr_width') if mm is not None and mm[0] == 'call' else None
     G = kwarg(mm, 'data_width') if mm is not None and mm[0] == 'call' else None
     want = ctor.norm(ir.parse("max(1, addr_width + exact_log2(data_width // G))", {"G": G})) if G is not None else None
+    # the same geometry read back from the bus the constructor has just declared with these very parameters
+    decl = idx.members(ctor.fi.cls).get("bus")
+    if aw is not None and aw != want and decl and decl[0][1][0] == 'call':
+        kws = dict(decl[0][1][3])
+        if all(kws.get(p_) == ('name', p_) for p_ in ("addr_width", "data_width", "granularity")):
+            back = {('name', p_): ir.parse(f"self.bus.{p_}") for p_ in ("addr_width", "data_width", "granularity")}
+            want_bus = ctor.norm(ir.subst(ir.parse("max(1, addr_width + exact_log2(data_width // granularity))"), lambda x: back.get(x)))
+            if aw == want_bus and G == ir.parse("self.bus.granularity"):
+                want = want_bus
     rep.check(aw is not None and aw == want, "C01.6", ctor.fi.site,
               "decoder map address width = bus address width + exact_log2(data_width // granularity)", f"addr_width={ir.show(aw) if aw else None}")
     # (b) the pattern trimming in elaborate() (checked in C07) uses the same expression on the bus; (c) the setter too (C01.5).
